@@ -47,9 +47,31 @@ fn seq_case(case: u64, rng: &mut Rng, rep: &mut Report) {
     // known_findings.txt: it reverts the opstamp counter and misses in-flight documents)
     let mut tainted = false;
     let mut tainted_at_failure = false;
+    // documents of the current transaction that are in a segment register for certain
+    // (prepare_commit() returned after them): even the known delete_all defect, which only
+    // misses documents still in the indexing pipeline, removes those
+    let mut added_since_commit: Vec<u64> = vec![];
+    let mut flushed_for_certain: BTreeSet<u64> = BTreeSet::new();
+    let mut must_vanish: BTreeSet<u64> = BTreeSet::new();
     for (i, op) in ops.iter().enumerate() {
         match op {
-            Op::DeleteAll => tainted = true,
+            Op::DeleteAll => {
+                tainted = true;
+                must_vanish.extend(flushed_for_certain.iter().copied());
+            }
+            Op::Add(d) => added_since_commit.push(d.id),
+            Op::Batch(b) => {
+                for o in b {
+                    if let BOp::Add(d) = o {
+                        added_since_commit.push(d.id);
+                    }
+                }
+            }
+            Op::PrepDrop => flushed_for_certain.extend(added_since_commit.iter().copied()),
+            Op::Commit | Op::PrepCommit { abort: false, .. } => {
+                added_since_commit.clear();
+                flushed_for_certain.clear();
+            }
             _ => {}
         }
         kinds.insert(op.kind());
@@ -98,6 +120,9 @@ fn seq_case(case: u64, rng: &mut Rng, rep: &mut Report) {
         if matches!(op, Op::Rollback | Op::Reopen { .. } | Op::PrepCommit { abort: true, .. }) {
             // a fresh IndexWriter (new stamper from meta.json, new delete queue)
             tainted = false;
+            added_since_commit.clear();
+            flushed_for_certain.clear();
+            must_vanish.clear();
         }
     }
     ex.drain_merges();
@@ -115,7 +140,15 @@ fn seq_case(case: u64, rng: &mut Rng, rep: &mut Report) {
             .collect();
         for (sig, d) in ex.problems.drain(..) {
             // histories using delete_all_documents are keyed separately (known-finding class)
-            let sig = if uses_delete_all {
+            let flushed_survivor = d["detail"]["extra_ids"]
+                .as_array()
+                .map(|a| a.iter().filter_map(|v| v.as_u64()).any(|id| must_vanish.contains(&id)))
+                .unwrap_or(false);
+            let sig = if uses_delete_all && flushed_survivor {
+                // not the known defect: these documents were in a registered segment when
+                // delete_all_documents() was called
+                format!("{sig}[flushed-segment-survived-delete_all]")
+            } else if uses_delete_all {
                 format!("{sig}[after-delete_all-on-this-writer]")
             } else {
                 sig
